@@ -84,6 +84,7 @@ static void gfree(gmem *g) { munmap(g->base, g->maplen); }
 #define TA_DEAD  0xdeadbeefdeadbeefULL
 typedef struct ta_hdr { uint64_t magic; size_t size; uint64_t serial; uint64_t pad; } ta_hdr;
 static long ta_live, ta_allocs, ta_frees, ta_fail_at, ta_requests; /* ta_fail_at: k-th request fails (1-based), 0 = never */
+static int ta_starve;   /* every request is refused while set (calls that must not need memory) */
 static unsigned long ta_fail_mask; static int ta_use_mask;   /* bit k-1 set = k-th request fails (k<=64) */
 static int ta_err_double, ta_err_foreign; static uint64_t ta_serial;
 static long ta_live_bytes;
@@ -91,6 +92,7 @@ static void *ta_malloc(size_t n)
 {
     ta_hdr *h;
     ta_requests++;
+    if (ta_starve) return NULL;
     if (ta_fail_at && ta_requests == ta_fail_at) return NULL;
     if (ta_use_mask && ta_requests <= 64 && ((ta_fail_mask >> (ta_requests - 1)) & 1UL)) return NULL;
     h = (ta_hdr*)malloc(sizeof(ta_hdr) + n);   /* exact size: ASan red zone right after the n bytes */
